@@ -23,7 +23,7 @@ NAMES = ['x', 'y', 'z']
 
 def bounds(tier):
     return dict(variables='3 (all functions), 3-5 (sampled root sets)', orders=6 if tier == 'thorough' else 2,
-                root_sets=150 if tier == 'quick' else 4000)
+                root_sets=150 if tier == 'quick' else 4000 * DEEP)
 
 
 def chunks(tier, seed):
@@ -35,7 +35,7 @@ def chunks(tier, seed):
     for o in orders:
         for warm in (0, 1):
             out.append(('case_all3', [dict(order=list(o), warm=warm, seed=seed)]))
-    n = 150 if tier == 'quick' else 4000
+    n = 150 if tier == 'quick' else 4000 * DEEP
     for k in range(0, n, 15):
         out.append(('case_rootsets', [dict(seed=seed * 3001 + k + i) for i in range(15)]))
     return out
